@@ -306,6 +306,52 @@ def label_helpers_rule(rep, u):
     return n + m
 
 
+def ts_validator_rule(rep, u, fname="mpeg2_ts_pkt_is_valid"):
+    """The MPEG-TS packet validator, evaluated over packet size 188/204/208 x adaptation field flag x payload flag x
+    adaptation field length (0, mid, size-7 .. size-4) x PID class (the five PSI PIDs, another, null): every header field
+    it reads through a pointer derived from the packet lies inside ts_hdr[0 .. mpeg2_ts_pkt_size)."""
+    import itertools
+    fn = u.fn(fname)
+    if fn is None or not fn.has_cfg:
+        raise driver.AnalysisBroken("anchor %s vanished" % fname)
+    rep.functions.add(fname)
+    PKT = 0x100000
+    n = 0
+    bad = und = None
+    pids = (0x0000, 0x0001, 0x0002, 0x0011, 0x0012, 0x0100, 0x1fff)
+    for size, afe, cp, pid in itertools.product((188, 204, 208), (0, 1), (0, 1), pids):
+        for aflen in ((0,) if not afe else (0, 100, size - 7, size - 6, size - 5, size - 4)):
+            pe = r_stride.PE(u)
+            for a in range(PKT, PKT + size + 16):
+                pe.memory[a] = 0                       # table header bytes read as zero wherever they are
+            pe.memory[PKT + 4] = aflen                 # adaptation_field_length, the byte behind the 4-byte header
+            bind = {"ts_hdr": PKT, "mpeg2_ts_pkt_size": size, "ts_hdr->sb": 0x47, "ts_hdr->afe": afe, "ts_hdr->cp": cp,
+                    "ts_hdr->pid_lo": pid & 0xff, "ts_hdr->pid_hi": (pid >> 8) & 0x1f, "ts_hdr->pid": pid}
+            ev, ret = pe.trace(fn, bind)
+            n += 1
+            if isinstance(ret, str):
+                und = und or "size %d afe %d cp %d af_len %d pid %#x: %s" % (size, afe, cp, aflen, pid, ret)
+                continue
+            for e, b in ev:
+                for x, _ in walk(e):
+                    if x.get("k") == "mem" and x.get("arrow") and "off" in x:
+                        base = core.strip_casts(x["b"])
+                        if base.get("k") == "ref" and base.get("n") in ("ts_hdr",):
+                            continue
+                        vs = pe.evals(x["b"], b, 0)
+                        if len(vs) != 1 or not isinstance(vs[0][0], int):
+                            continue
+                        a0 = vs[0][0] + x["off"] // 8
+                        w = ((x["off"] % 8 + x["bits"] + 7) // 8) if "bits" in x else (u.type(x["t"]).get("size") or 1)
+                        if not (PKT <= a0 and a0 + w <= PKT + size):
+                            bad = bad or "packet size %d, adaptation field %s (length %d), payload flag %d, PID %#x: the field %s is read at " \
+                                "offset %d, %d byte(s) past the packet (line %s)" % (size, "present" if afe else "absent", aflen, cp, pid, x.get("f"),
+                                                                                     a0 - PKT, a0 + w - (PKT + size), x.get("ln"))
+    desc = "%s reads table-header fields only inside the packet it was given" % fname
+    (rep.violated if bad else rep.undecided if und else rep.proved)("R-BOUND", fn, "header-reads-inside-packet", desc, bad or und or "%d cases" % n)
+    return n
+
+
 def run(rep, tier):
     us = driver.load_units(specs())
     rep.use_units(us)
@@ -323,6 +369,7 @@ def run(rep, tier):
     rep.floor("validator/locator pairs", nl, 2)
     rep.floor("validator header reads", sum(validator_guard_rule(rep, u, lab) for lab, u in us.items()), 12)
     rep.floor("label-sequence helper cases", label_helpers_rule(rep, us["proto/dns.h"]), 3000)
+    rep.floor("TS validator cases", ts_validator_rule(rep, us["proto/mpeg2ts.h"]), 200)
     # request line: the components returned are sub-spans of the target (rule lives in C20)
     from props import c20
     rep.floor("target component searches", c20.span_rule(rep, us["src/proto/http.c"]), 3)
